@@ -269,6 +269,16 @@ def _compare(  # noqa: C901, PLR0912
             if not delete:
                 continue
 
+            if (
+                change.old.meta
+                and change.old.meta.isdir
+                and new is not None
+                and new.has_node(change.key)
+            ):
+                # NOTE: the dir has no entry of its own in the new index, but
+                # still exists there as an implicit parent of other entries.
+                continue
+
             _add_delete(change.old)
         elif change.typ == UNCHANGED:
             assert relink
